@@ -6,14 +6,17 @@ ROOT = os.path.dirname(os.path.dirname(os.path.abspath(__file__)))
 STATUS = {
     "C01": ("proof", "41 theorems: overflowing/checked/wrapping/saturating/strict/inherent add, sub, neg, abs, add_signed, add_unsigned, sub_unsigned, carrying_add, borrowing_sub, abs_diff, unsigned_abs, midpoint, for every digit width w > 0 and every digit count"),
     "C02": ("proof", "17 theorems: long_mul exact low half + exact overflow flag, widening_mul / carrying_mul full double-width product, signed overflowing_mul incl. MIN * -1, all projections, for every w > 0 and every n"),
-    "C03": ("other", ""), "C04": ("other", ""),
+    "C03": ("proof", "67 theorems: div_rem_digit, div_rem_unchecked on ALL dispatch paths incl. Knuth algorithm D (quotient-estimate bounds, add-back, normalisation) for every digit width, n = q*d + r with 0 <= r < d; signed truncation = Z.quot/Z.rem, euclid pair, div_floor/div_ceil, next_multiple_of / checked_next_multiple_of as least/greatest multiple, zero divisor -> None / Panic, MIN / -1 cases of every form"),
+    "C04": ("proof", "18 theorems: exact panic conditions per build mode for + - * neg abs pow next_power_of_two, << >> with each of the twelve primitive amount types (negative, >= BITS, > u32::MAX), strict_*, ilog2; division panics are the C03 theorems; option-/pair-valued forms have no Panic value in the model and the correspondence check compares catch_unwind outcomes in both build modes"),
     "C05": ("proof", "38 theorems: shl = (x*2^s) mod 2^BITS, shr = floor(x/2^s) zero-filling and sign-propagating, checked/overflowing/unbounded/strict/inherent forms, wrapping = s mod BITS for power-of-two BITS, rotations as cyclic permutations for EVERY width incl. non-powers of two, rotl/rotr inverses, machine-checked refutation of the pre-fix rotate"),
     "C06": ("proof", "35 theorems: and/or/xor/not bitwise on the value, count_ones/zeros, leading/trailing zeros/ones, bits, bit/set_bit incl. the exact panic condition, power_of_two, is_power_of_two, checked/wrapping/inherent next_power_of_two, swap_bytes/reverse_bits as reversals and involutions"),
     "C07": ("proof", "28 theorems: cmp = Z.compare of the denoted values (unsigned and two's complement), lt/le/gt/ge/min/max/clamp, equality <-> identical arrays <-> equal values, hash stream equality, signum/is_positive/is_negative"),
-    "C08": ("proof", "29 theorems; the 18 about pow (all modes, signed and unsigned, 0^0 = 1, saturation side) and ilog2 are unconditional; the 11 about ilog/ilog10 (exactness, fuel sufficiency, no overflow of b*b in debug builds) are still stated under the explicit premise that division is correct (div_spec), which property C03's proof discharges once merged - they are counted as not discharged in the evidence"),
+    "C08": ("proof", "29 theorems: pow in every mode, signed and unsigned, 0^0 = 1, saturation side; ilog/ilog2/ilog10 exactness b^k <= x < b^(k+1), fuel sufficiency, None/Panic conditions, and no overflow of b*b inside iilog (so checked_ilog is total in debug builds)"),
+    "C09": ("proof", "16 theorems: As/CastFrom between any two bnum configurations (all digit widths incl. cross-digit split/pack routines, signed and unsigned), primitive <-> bnum, bool, char: value reduced mod 2^(target BITS), never panics; reinterpretations are the identity"),
     "C15": ("proof", "18 theorems: from_be/le_slice for unsigned and signed = Some(value) iff representable for byte strings of ANY length, zero/sign padding, empty slice, to_be/from_be = swap_bytes involution, to_le/from_le identity, nightly *_bytes round trips and two's-complement bytes; for every digit width that is a multiple of 8"),
     "C16": ("proof", "22 theorems: equal width + equal values => equal results and flags across digit types (add, sub, mul, cmp, shl, shr, pow; signed add, mul, cmp), extension into a wider type commutes when the exact result fits (add, sub, mul, cmp, signed add), constant tables / alias table / instantiation table REGENERATED FROM THE SOURCE on every run denote what their names advertise, MIN/MAX/BITS/BYTES values"),
-    "C17": ("other", ""),
+    "C17": ("proof", "10 theorems on the parts of the trait layer that have content in the model: amount conversion of the 12 primitive shift-amount types and of bnum-typed amounts, Add/Div/Rem<digit>, Sum/Product as left folds, Default; reference/assign forms are the same model function as the by-value operator by construction, their agreement in the code is established by the correspondence check calling each of the ~500 generated impls"),
+    "C20": ("proof", "36 theorems: gen_range / Uniform::sample / sample_single(_inclusive) in range for every stream (RNG = universally quantified byte stream), accepted RNG words for each value are exactly q consecutive integers (unbiased by construction) for every BITS, zone formulas, Standard = little-endian decode and decode is a bijection onto [0, 2^BITS), slice fill = element-wise fill, no panic / fuel suffices"),
 }
 NA_REASON = "not yet built in this round (work in progress; see DESIGN.md section 9)"
 TRUST = ("Trusted: Coq 8.16.1 kernel (incl. vm_compute for the kernel-checked correspondence sample); coq/Prim.v models of Rust's "
